@@ -261,6 +261,7 @@ type Global struct {
 	Comdat      *Comdat
 	Align       uint64
 	Attrs       []string
+	Sanitizer   string // LLVM 15: no_sanitize_address, sanitize_memtag, ...
 	MD          []*Attachment
 }
 
@@ -735,6 +736,9 @@ func (p *Printer) global(g *Global) {
 	}
 	if g.Align != 0 {
 		p.w(", align %d", g.Align)
+	}
+	if g.Sanitizer != "" {
+		p.w(", %s", g.Sanitizer)
 	}
 	p.w("%s", p.mdAttachments(g.MD, ", "))
 	if len(g.Attrs) > 0 {
